@@ -64,17 +64,14 @@ func (p *Program) verifyFunction(fn *ssa.Function, con *Contract) (res *FuncResu
 		f.params[fv.Name()] = v
 	}
 	f.entry = st.clone()
-	// ghosts, lets
+	// ghosts, lets (in source order)
 	env0 := f.envPost(st, nil)
-	for _, g := range con.Ghosts {
-		srt := env0.sortOfTypeString(g.Type)
-		f.spec[g.Name] = Val{T: vc.declare("ghost "+g.Name, srt), Sort: srt, Typ: env0.goTypeOf(g.Type)}
-	}
-	env0 = f.envPost(st, nil)
+	f.bindGhosts(con, env0, true)
 	for _, l := range con.Lets {
-		v := env0.eval(l.E)
-		f.spec[l.Name] = v
-		env0.vars[l.Name] = v
+		f.spec[l.Name] = env0.vars[l.Name]
+	}
+	for _, g := range con.Ghosts {
+		f.spec[g.Name] = env0.vars[g.Name]
 	}
 	for _, r := range con.Requires {
 		vc.assert(env0.evalBool(r.E))
@@ -186,7 +183,16 @@ func (f *Frame) checkReturn(e Exit) {
 	}
 	env := f.envPost(e.St, f.resultBindings(e))
 	for i, en := range con.Ensures {
-		vc.oblige("post", fmt.Sprintf("%s#post:%d@%s", name, i+1, anchor), e.Cond, env.evalBool(en.E), f.pos(e.Pos), en.Src)
+		po := vc.oblige("post", fmt.Sprintf("%s#post:%d@%s", name, i+1, anchor), e.Cond, env.evalBool(en.E), f.pos(e.Pos), en.Src)
+		rn := f.fn.Signature.Results()
+		for ri := 0; ri < rn.Len() && ri < len(e.Results); ri++ {
+			rv := e.Results[ri]
+			if rv.Loc != nil {
+				rv = Val{T: f.ptrTerm(rv)}
+			}
+			rv.Typ = rn.At(ri).Type()
+			po.Results = append(po.Results, rv)
+		}
 	}
 	// panics-when conditions must not hold on a normal return
 	for i, p := range con.Panics {
